@@ -222,7 +222,35 @@ def run(ctx):
         else:
             why = 'distance_km is not evaluated inside a loop over the selection'
     ctx.ob('TABLE', 'validate:every-pair-measured', okpair, vb.where(wit_ln), why, entry=vb.id)
-    ctx.floor('TABLE', 5)
+    # the two counting loops count every selected node, and Ok(()) is returned only after every check loop ran to exhaustion
+    ents = vb.calls(r'HashMap::<.*>::entry$')
+    for i, c in enumerate(ents):
+        okc, wl, why = L.every_iteration_passes(vb, c.bb)
+        ctx.ob('TABLE', 'validate:count-every-node#%d' % i, okc, vb.where(wl if wl else c.ln),
+               ('every selected node is counted (%s)' % vb.expr(c.args[1]).brief(40)) if okc else
+               ('a selected node can be left out of the per-region / per-ASN count: %s' % why), entry=vb.id)
+    oks = L.success_returns(vb)
+    exhaust = []
+    for nnode, e in vb.edge_nodes().items():
+        cnd = F.edge_cond(vb, e)
+        if cnd.kind == 'disc' and cnd.variant_is(0) and L.mentions_next(cnd.expr) is not None:
+            exhaust.append(nnode)
+    outer = []
+    loops_v = L.natural_loops(vb)
+    for h, ns in loops_v:
+        if not any(ns < ns2 for _h2, ns2 in loops_v if ns2 is not ns):
+            outer.append((h, ns))
+    okret = bool(oks) and len(outer) >= 1
+    whyret = '%d top-level loops' % len(outer)
+    for bb, st in oks:
+        for h, ns in outer:
+            ex = [n for n in exhaust if vb.cfg()[2][n][0] in ns and not any(vb.cfg()[2][n][0] in ns2 and ns2 < ns for _h, ns2 in loops_v)]
+            if not any(vb.dominates(n, bb) for n in ex):
+                okret = False
+                whyret = 'Ok(()) at line %s is not dominated by the exhaustion of the loop at line %s' % (st.get('ln'), vb.line_of_block(h))
+    ctx.ob('TABLE', 'validate:ok-after-all-checks', okret, vb.where(oks[0][1].get('ln') if oks else None),
+           ('Ok(()) is returned only after all %d check loops ran to exhaustion' % len(outer)) if okret else whyret, entry=vb.id)
+    ctx.floor('TABLE', 8)
 
     # ---- 5. no panic sites in the algorithm bodies
     n = 0
